@@ -19,8 +19,13 @@ Case = (prog ops).
                                      2 new_with_fn(same bucket of ten), 3 new_with_fn(value >= key).  The nodes
                                      before it belong to it: V, P = (0 5 0) the cells of its value and of the value its
                                      internal effect returned last, T = (0 6 key) one trigger per key
+         (5 decl)                    template: a memo (1 cmp flavour expr) or an effect (3 kind body handler) that is
+                                     created at RUN TIME by the one body that evaluates (9 i); created under the current
+                                     owner, it sees the nodes its creator sees.  In the trace an instance has an id of its
+                                     own (ids follow the indices of the program, in creation order): event (12 id i)
   expr : (0 z) | (1 j) get | (2 j) get_untracked | (3 e) untrack | (4 a b) + | (5 a b) < | (6 c a b) if | (7 s e) set
          | (8 e j) selector e .selected(key of its j-th trigger)
+         | (9 k) create the node of template k (only as a prefix of a body: (4 (9 k) rest)); value 0
   op   : (0 s v) set | (1 s) notify | (2 n) read | (3 k) poll k-th ready | (4) run to idle
          | (5 e) pause | (6 e) resume: Owner::pause / resume on the owner effect e was created under (reaches e and
            every effect below it) | (7 e) dispose: the RenderEffect handles of that subtree are dropped, then the
@@ -33,7 +38,7 @@ Events printed by harness and model:
 """
 from . import common as C
 
-SIG, MEMO, DER, EFF, SEL = 0, 1, 2, 3, 4
+SIG, MEMO, DER, EFF, SEL, TPL = 0, 1, 2, 3, 4, 5
 
 
 def is_cell(nd):
@@ -95,6 +100,8 @@ def reads_of(e, acc=None, untr=False):
         reads_of(e[2], acc, untr)
     elif k == 8:
         acc.append((e[1], not untr))      # through the selector: its source is in the cone
+    elif k == 9:
+        acc.append((e[1], False))         # what the created node reads is in the creator's cone
     return acc
 
 
@@ -139,7 +146,64 @@ def bodies(nd):
         return [nd[2], nd[3]]
     if nd[0] == SEL:
         return [nd[2]]
+    if nd[0] == TPL:
+        return bodies(nd[1])
     return []
+
+
+def split_creates(body):
+    """(templates created by the prefix of the body, the rest of the body)"""
+    ks = []
+    while isinstance(body, list) and len(body) == 3 and body[0] == 4 and isinstance(body[1], list) and body[1][:1] == [9]:
+        ks.append(body[1][1])
+        body = body[2]
+    return ks, body
+
+
+def has_create(e):
+    if not isinstance(e, list) or not e:
+        return False
+    if e[0] == 9:
+        return True
+    return any(has_create(x) for x in e[1:] if isinstance(x, list))
+
+
+def tpl_kind(nd):
+    """MEMO / EFF for a template node, else None"""
+    return nd[1][0] if nd[0] == TPL else None
+
+
+def creators(prog):
+    """template -> (creator node, position in its prefix); None if some template has two creators"""
+    out = {}
+    for i, nd in enumerate(prog):
+        d = nd[1] if nd[0] == TPL else nd
+        if d[0] not in (MEMO, EFF):
+            continue
+        body = d[3] if d[0] == MEMO else d[2]
+        for n, k in enumerate(split_creates(body)[0]):
+            if k in out:
+                return None
+            out[k] = (i, n)
+    return out
+
+
+def scope_of(prog, cr, i, own=True):
+    """memo templates whose instance the body of node i can name: those its own prefix creates (own=True), and those
+    its creators created before creating it"""
+    vis = set()
+    d = prog[i][1] if prog[i][0] == TPL else prog[i]
+    if own and d[0] in (MEMO, EFF):
+        vis |= set(split_creates(d[3] if d[0] == MEMO else d[2])[0])
+    x = i
+    seen = 0
+    while x in cr and seen <= len(prog):
+        c, n = cr[x]
+        dc = prog[c][1] if prog[c][0] == TPL else prog[c]
+        vis |= set(split_creates(dc[3] if dc[0] == MEMO else dc[2])[0][:n])
+        x = c
+        seen += 1
+    return {k for k in vis if 0 <= k < len(prog) and tpl_kind(prog[k]) == MEMO}
 
 
 def cone(prog, i, memo=None):
@@ -162,12 +226,19 @@ def cone(prog, i, memo=None):
 def valid_prog(prog):
     """generator preconditions: a DAG by index, effects are sinks, writes only from effects to signals"""
     owned = set()      # cells / triggers that belong to a selector
+    cr = None          # template -> its creator (computed when the first template shows up)
     for i, nd in enumerate(prog):
-        if not isinstance(nd, list) or not nd or nd[0] not in (0, 1, 2, 3, 4):
+        if not isinstance(nd, list) or not nd or nd[0] not in (0, 1, 2, 3, 4, 5):
             return False
-        want = {SIG: (3,), MEMO: (4,), DER: (3,), EFF: (4, 5), SEL: (6,)}[nd[0]]
+        want = {SIG: (3,), MEMO: (4,), DER: (3,), EFF: (4, 5), SEL: (6,), TPL: (2,)}[nd[0]]
         if len(nd) not in want:
             return False
+        if nd[0] == TPL:
+            d = nd[1]
+            if not (isinstance(d, list) and d and ((d[0] == MEMO and len(d) == 4) or (d[0] == EFF and len(d) == 4 and d[1] in (0, 1, 2, 3, 4)))):
+                return False
+            if d[0] == EFF and d[1] not in (2, 3) and d[3] != [0, 0]:
+                return False
         if nd[0] == EFF and len(nd) == 5:
             q = nd[4]
             if not isinstance(q, int) or q < -1 or q >= i:
@@ -185,11 +256,35 @@ def valid_prog(prog):
             if len({prog[t][2] for t in nd[5]}) != len(nd[5]):
                 return False
             owned |= set(mine)
+        d = nd[1] if nd[0] == TPL else nd
         for bi, b in enumerate(bodies(nd)):
-            if not valid_expr(b) or not valid_refs(prog, i, b):
+            if not valid_expr(b):
+                return False
+            ks, rest = split_creates(b)
+            if has_create(rest) or (ks and (d[0] not in (MEMO, EFF) or bi == 1 or (d[0] == EFF and d[1] == 5))):
+                return False
+            if ks:
+                if cr is None:
+                    cr = creators(prog)
+                    if cr is None:
+                        return False
+                for k in ks:
+                    if not (isinstance(k, int) and 0 <= k < i and prog[k][0] == TPL):
+                        return False
+                    if tpl_kind(prog[k]) == EFF and d[0] != EFF:
+                        return False       # effects are created by effects
+
+            sc = frozenset()
+            if d[0] in (MEMO, EFF) and (ks or nd[0] == TPL):
+                if cr is None:
+                    cr = creators(prog)
+                    if cr is None:
+                        return False
+                sc = frozenset(scope_of(prog, cr, i, own=(bi == 0)))
+            if not valid_refs(prog, i, rest, sc):
                 return False
             ws = writes_of(b)
-            if ws and nd[0] != EFF:
+            if ws and d[0] != EFF:
                 return False
         if nd[0] == EFF and nd[1] not in (2, 3) and nd[3] != [0, 0]:
             return False
@@ -198,21 +293,24 @@ def valid_prog(prog):
     return True
 
 
-def valid_refs(prog, i, e):
-    """every node an expression of node i names is declared before i and is of the right kind"""
+def valid_refs(prog, i, e, scope=frozenset()):
+    """every node an expression of node i names is declared before i and is of the right kind; `scope`: the memo
+    templates whose instance the body can name"""
     k = e[0]
     if k in (1, 2):
-        return 0 <= e[1] < i and is_plain(prog[e[1]])
+        return 0 <= e[1] < i and (is_plain(prog[e[1]]) or e[1] in scope)
     if k == 3:
-        return valid_refs(prog, i, e[1])
+        return valid_refs(prog, i, e[1], scope)
     if k in (4, 5):
-        return valid_refs(prog, i, e[1]) and valid_refs(prog, i, e[2])
+        return valid_refs(prog, i, e[1], scope) and valid_refs(prog, i, e[2], scope)
     if k == 6:
-        return all(valid_refs(prog, i, x) for x in e[1:])
+        return all(valid_refs(prog, i, x, scope) for x in e[1:])
     if k == 7:
-        return 0 <= e[1] < i and prog[e[1]][0] == SIG and is_plain(prog[e[1]]) and valid_refs(prog, i, e[2])
+        return 0 <= e[1] < i and prog[e[1]][0] == SIG and is_plain(prog[e[1]]) and valid_refs(prog, i, e[2], scope)
     if k == 8:
         return 0 <= e[1] < i and prog[e[1]][0] == SEL and 0 <= e[2] < len(prog[e[1]][5])
+    if k == 9:
+        return False       # only as the prefix of a body
     return True
 
 
@@ -258,6 +356,8 @@ def valid_expr(e, depth=0):
         return len(e) == 3 and isinstance(e[1], int) and valid_expr(e[2], depth + 1)
     if k == 8:
         return len(e) == 3 and isinstance(e[1], int) and isinstance(e[2], int)
+    if k == 9:
+        return len(e) == 2 and isinstance(e[1], int)
     return False
 
 
@@ -316,13 +416,16 @@ def writes_terminate(prog):
     """no effect writes a signal that an effect of smaller-or-equal index may read: every chain of
     effect-triggers-effect goes strictly upwards, so every history reaches idle"""
     memo = {}
+    iseff = lambda nd: nd[0] == EFF or tpl_kind(nd) == EFF
     for e, nd in enumerate(prog):
-        if nd[0] != EFF:
+        if not iseff(nd):
             continue
         for b in bodies(nd):
             for s in writes_of(b):
+                if any(tpl_kind(x) is not None for x in prog):
+                    return False      # programs that create nodes at run time: no writing effects
                 for e2, nd2 in enumerate(prog):
-                    if nd2[0] == EFF and e2 <= e and s in cone(prog, e2, memo):
+                    if iseff(nd2) and e2 <= e and s in cone(prog, e2, memo):
                         return False
     return True
 
@@ -634,6 +737,66 @@ def gen_deep_case(rng, depth, n_diamonds=0, with_effect=False):
     return [prog, ops]
 
 
+def gen_dynamic_program(rng, n_creators, eff_kinds=(0, 0, 1, 2, 3, 4), with_effects=True, p_untr=0.03, depth2=0.35):
+    """nodes created at run time: creators (memos / effects) whose bodies begin with (9 k) for the templates declared
+    just before them; a template effect may itself be a creator (nesting of depth 2)"""
+    prog = []
+    for _ in range(rng.randint(2, 3)):
+        prog.append([0, rng.choice([0, 0, 1, 1, 2, 3, 4]), rng.randint(0, 3)])
+    sigs = list(range(len(prog)))
+    if rng.random() < 0.5:
+        prog.append([1, rng.choice([0, 0, 1, 2]), rng.randint(0, 1), gen_expr(rng, sigs, 1, p_untr, sigs)])
+
+    def plain():
+        return [j for j, nd in enumerate(prog) if is_plain(nd)]
+
+    def body_over(readable, depth):
+        e = gen_expr(rng, readable, depth, p_untr, sigs)
+        return e
+
+    def make_creator(is_eff, as_template, level, inherited):
+        """appends the templates, then the creator; returns the creator's index"""
+        mine = []          # memo templates visible to what is created later in this prefix
+        created = []
+        for _ in range(rng.randint(1, 2)):
+            want_eff = is_eff and rng.random() < (0.6 if with_effects else 0.0)
+            if want_eff and level == 0 and rng.random() < depth2:
+                k = make_creator(True, True, level + 1, inherited + mine)
+            elif want_eff:
+                kind = rng.choice(eff_kinds)
+                b = body_over(plain() + inherited + mine, rng.choice([0, 1, 2]))
+                h = body_over(plain() + inherited + mine, rng.choice([0, 1])) if kind in (2, 3) else [0, 0]
+                prog.append([5, [3, kind, b, h]])
+                k = len(prog) - 1
+            else:
+                fl = rng.randint(0, 1)
+                b = body_over(plain() + inherited + mine, rng.choice([1, 1, 2]))
+                prog.append([5, [1, rng.choice([0, 0, 0, 1, 2]), fl, b]])
+                k = len(prog) - 1
+                mine.append(k)
+            created.append(k)
+        rest = body_over(plain() + inherited + mine, rng.choice([1, 2]))
+        if mine and rng.random() < 0.85:
+            rest = [4, [1, rng.choice(mine)], rest]
+        body = rest
+        for k in reversed(created):
+            body = [4, [9, k], body]
+        if is_eff:
+            kind = rng.choice(eff_kinds)
+            h = body_over(plain() + inherited, rng.choice([0, 1])) if kind in (2, 3) else [0, 0]
+            d = [3, kind, body, h]
+        else:
+            d = [1, rng.choice([0, 0, 0, 1, 2]), rng.randint(0, 1) if not as_template else 0, body]
+        prog.append([5, d] if as_template else d)
+        return len(prog) - 1
+
+    for _ in range(n_creators):
+        make_creator(with_effects and rng.random() < 0.7, False, 0, [])
+        if rng.random() < 0.3:
+            prog.append([1, 0, rng.randint(0, 1), gen_expr(rng, plain(), 1, p_untr, sigs)])
+    return prog
+
+
 def interleave(main, extras, every):
     """yield the items of `main`, one of `extras` after every `every` of them (expensive cases spread over the
     shards the driver cuts the stream into), the rest at the end"""
@@ -746,6 +909,7 @@ class Malformed(Exception):
 class Hooks:
     """override what you need; `w` is the walker (w.sig: current signal values, w.lastlog, w.endval ...)"""
     def start(self, w, i, handler): pass
+    def created(self, w, i, k): pass          # instance i of template k has just been created
     def end(self, w, i, v, handler, changed): pass
     def read(self, w, who, j, v, t): pass
     def write(self, w, s, who): pass          # after the value is stored (notify: same, value unchanged)
@@ -758,7 +922,13 @@ class Hooks:
 
 class Walker:
     def __init__(self, prog, ops, trace, hooks):
-        self.prog, self.ops, self.tr, self.hooks = prog, ops, trace, hooks
+        # instances of templates are appended to the program as they are created (their id = their index)
+        self.prog, self.ops, self.tr, self.hooks = list(prog), ops, trace, hooks
+        self.nstatic = len(prog)
+        self.cap = {}          # instance -> {template: instance} it sees (captured when it was created)
+        self.tpl_of = {}       # instance -> its template
+        self.kids = {}         # node / instance -> instances its last run created
+        self.envs = []         # environments of the running bodies (innermost last)
         self.pos = 0
         self.sig = {i: nd[2] for i, nd in enumerate(prog) if nd[0] == SIG}
         self.lastlog = {}      # i -> [(j, v, t)] of the last (or the running) body run
@@ -804,13 +974,24 @@ class Walker:
         if not (0 <= i < len(self.prog)) or self.prog[i][0] not in (MEMO, EFF, SEL) or (handler and self.prog[i][0] != EFF):
             raise Malformed("body start of a node that has no body: %r" % (e,))
         nd = self.prog[i]
+        if nd[0] == TPL:
+            raise Malformed("body start of a template (instances have ids of their own): %r" % (e,))
         body = nd[3] if (nd[0] == MEMO or handler) else nd[2]
         if not handler:
             self.runs[i] = self.runs.get(i, 0) + 1
             self.lastlog[i] = []
+            # owner.with_cleanup (effects and memos run under an owner of their own): what the previous run
+            # created under it is disposed
+            for c in self.kids.get(i, []):
+                self.kill(c)
+            self.kids[i] = []
         self.hooks.start(self, i, handler)
         self.running.append((i, handler))
-        v = self.exec(body, i, handler)
+        self.envs.append(dict(self.cap.get(i, {})))
+        try:
+            v = self.exec(body, i, handler)
+        finally:
+            self.envs.pop()
         self.running.pop()
         e2 = self.take(6 if handler else 3)
         if e2[1] != i:
@@ -829,14 +1010,67 @@ class Walker:
             self.epoch += 1
         self.hooks.end(self, i, v, handler, changed)
 
+    def kill(self, c):
+        """instance c is disposed with the owner it was created under (and so is what it created)"""
+        nd = self.prog[c]
+        if nd[0] == EFF:
+            self.alive[c] = False
+        elif nd[0] == MEMO and nd[2] == 1:
+            self.gone.add(c)          # an arena Memo; an ArcMemo lives as long as its handle
+            self.epoch += 1
+        for d in self.kids.get(c, []):
+            self.kill(d)
+
+    def resolve(self, j):
+        """a template named by the running body: its instance in the body's environment"""
+        if 0 <= j < self.nstatic and self.prog[j][0] == TPL:
+            env = self.envs[-1] if self.envs else {}
+            if j not in env:
+                raise Malformed("template %d has no instance in this scope" % j)
+            return env[j]
+        return j
+
+    def create(self, who, k):
+        e = self.take(12)
+        i = len(self.prog)
+        if e[1] != i or e[2] != k:
+            raise Malformed("creation event %r does not fit instance %d of template %d" % (e, i, k))
+        nd = self.prog[k][1]
+        self.prog.append(nd)
+        self.tpl_of[i] = k
+        self.cap[i] = dict(self.envs[-1])
+        self.envs[-1][k] = i
+        self.kids.setdefault(who, []).append(i)
+        if nd[0] == EFF:
+            self.alive[i] = True
+            self.paused[i] = False
+        self.hooks.created(self, i, k)
+        self.blocks()          # a RenderEffect runs once at creation
+
+    def descendants(self, o):
+        """the effects Owner::pause / resume / cleanup on the owner of (static) effect o reach: the static subtree and
+        whatever those effects created at run time"""
+        out = []
+        def down(c):
+            out.append(c)
+            for d in self.kids.get(c, []):
+                if self.prog[d][0] == EFF:
+                    down(d)
+        for d in subtree(self.prog[:self.nstatic], o):
+            down(d)
+        return out
+
     def exec(self, e, who, untr):
         k = e[0]
         if k == 0:
             return e[1]
+        if k == 9:
+            self.create(who, e[1])
+            return 0
         if k == 1:
-            return self.read(who, e[1], True, untr)
+            return self.read(who, self.resolve(e[1]), True, untr)
         if k == 2:
-            return self.read(who, e[1], False, untr)
+            return self.read(who, self.resolve(e[1]), False, untr)
         if k == 3:
             return self.exec(e[1], who, True)
         if k == 4:
@@ -944,14 +1178,14 @@ class Walker:
                     self.take(7)
                     self.hooks.idle(self)
             elif k == 5:
-                for d in subtree(self.prog, o[1]):
+                for d in self.descendants(o[1]):
                     self.paused[d] = True
             elif k == 6:
-                for d in subtree(self.prog, o[1]):
+                for d in self.descendants(o[1]):
                     self.paused[d] = False
             elif k == 7:
-                for d in subtree(self.prog, o[1]):
-                    self.alive[d] = False
+                for d in subtree(self.prog[:self.nstatic], o[1]):
+                    self.kill(d)
                 self.blocks()
             elif k == 8:
                 self.gone.add(o[1])
@@ -1001,21 +1235,48 @@ class Truth:
                     if cx is None or not same_for_subscribers(w.prog[x], cx, vx):
                         fresh = False
                         break
-            st = {"log": log, "p": 0, "ok": True, "fresh": fresh}
-            v = self.ev(nd[3], False, st)
-            if not st["ok"]:
-                v = None
+            if fresh and j in w.endval:
+                # nothing obliges j to run again: its value is the one of its last run (re-evaluating the body
+                # over the log gives the same; a body that creates nodes cannot be replayed over its old log)
+                v = w.endval[j]
+            else:
+                st = {"log": log, "p": 0, "ok": True, "fresh": fresh, "env": dict(w.cap.get(j, {}))}
+                v = self.ev(nd[3], False, st)
+                if not st["ok"]:
+                    v = None
         else:
             raise Malformed("truth of a derived signal is evaluated inline")
         self.memo[j] = v
         return v
 
+    def fresh_value(self, k, env):
+        """the value of a memo the body under evaluation creates: its function over current values"""
+        nd = self.w.prog[k][1]
+        if nd[0] != MEMO:
+            return None
+        st = {"log": [], "p": 0, "ok": True, "fresh": False, "sync": False, "env": dict(env)}
+        v = self.ev(nd[3], False, st)
+        return v if st["ok"] else None
+
     def ev(self, e, untr, st):
         k = e[0]
         if k == 0:
             return e[1]
+        if k == 9:
+            if st is not None:
+                st.setdefault("env", {})[e[1]] = ("fresh", dict(st.get("env", {})))
+                st["sync"] = False     # the recomputation creates new nodes: the old log names the old ones
+            return 0
         if k in (1, 2):
-            return self.rd(e[1], k == 1, untr, st)
+            j = e[1]
+            if 0 <= j < self.w.nstatic and self.w.prog[j][0] == TPL:
+                tgt = (st or {}).get("env", {}).get(j)
+                if tgt is None:
+                    return None
+                if isinstance(tgt, tuple):
+                    return self.fresh_value(j, tgt[1])
+                j = tgt
+            return self.rd(j, k == 1, untr, st)
         if k == 3:
             return self.ev(e[1], True, st)
         if k in (4, 5):
@@ -1315,11 +1576,11 @@ class C02Hooks(Hooks):
     def op(self, w, o):
         k = o[0]
         if k == 5:
-            for d in subtree(w.prog, o[1]):
+            for d in w.descendants(o[1]):
                 if w.alive.get(d):
                     self.paused_since_run[d] = True
         if k == 6:
-            for d in subtree(w.prog, o[1]):
+            for d in w.descendants(o[1]):
                 if w.paused.get(d):
                     self.hit_after_resume[d] = False
         # wake order: idle, then one top-level write, then run-to-idle
@@ -1449,6 +1710,8 @@ def show_expr(e):
         return "set(n%d, %s)" % (e[1], show_expr(e[2]))
     if k == 8:
         return "n%d.selected(key#%d)" % (e[1], e[2])
+    if k == 9:
+        return "create(n%d)" % e[1]
     return "?"
 
 
@@ -1459,7 +1722,15 @@ def describe(item):
         sf = ["ArcRwSignal", "signal()", "RwSignal", "ArcTrigger cell", "arc_signal()"]
         ek = ["Effect::new", "RenderEffect", "watch", "watch(immediate)", "Effect::new_isomorphic", "ImmediateEffect"]
         for i, nd in enumerate(prog):
-            if is_cell(nd):
+            if nd[0] == TPL:
+                d = nd[1]
+                if d[0] == MEMO:
+                    out.append("n%d = template %s%s(%s)" % (i, ["ArcMemo", "Memo"][d[2] % 2],
+                                                            ["", "[always changed]", "[changed iff parity differs]"][d[1] % 3], show_expr(d[3])))
+                else:
+                    h = "" if d[1] not in (2, 3) else " handler %s" % show_expr(d[3])
+                    out.append("n%d = template %s(%s)%s" % (i, ek[d[1] % 6], show_expr(d[2]), h))
+            elif is_cell(nd):
                 out.append("n%d = <selector cell>" % i)
             elif is_key(nd):
                 out.append("n%d = <selector key %d>" % (i, nd[2]))
